@@ -138,9 +138,29 @@ func c08One(c *core.Ctx, s string, family string) {
 	if len(s) >= 2 {
 		c.Nontrivial(s)
 	}
-	v := RefSpec(s, c08Opts, c08Args)
+	mask := 7
+	opts, args := c08Opts, c08Args
+	if family == "random" {
+		// every declared/undeclared naming: a random subset of the names is declared
+		mask = 1 + c.R.Intn(15)
+		opts, args = map[string]bool{}, map[string]bool{}
+		if mask&1 != 0 {
+			opts["-a"], opts["--aa"] = true, true
+		}
+		if mask&2 != 0 {
+			opts["-o"], opts["--out"] = true, true
+		}
+		if mask&4 != 0 {
+			args["X"] = true
+		}
+		if mask&8 != 0 {
+			args["Y"] = true
+		}
+		c.Inc(fmt.Sprintf("declared_mask_%d", mask))
+	}
+	v := RefSpec(s, opts, args)
 	sub := family == "random" && len(s)%3 == 0
-	out := drive.CompileSpec(s, sub)
+	out := drive.CompileSpec(s, sub, mask)
 	if out.Pan != nil {
 		c.Violation(fmt.Sprintf("Run panicked with something that is not a positioned spec error: %v", out.Pan), nil, nil)
 		return
